@@ -297,7 +297,7 @@ class Resolver:
         if name not in self.funcs:
             raise Skip(f'decorator {name} not found')
         fn = self.funcs[name]
-        st = {'chain': [name], 'pass': True, 'consts': {}, 'inner': '', 'factory': None}
+        st = {'chain': [name], 'pass': True, 'consts': {}, 'inner': '', 'factory': None, 'byNone': True}
         body = strip_doc(fn.body)
         last = body[-1] if body else None
         nested = {s.name: s for s in body if isinstance(s, FUNC)}
@@ -339,12 +339,22 @@ class Resolver:
         nested = {s.name: s for s in body if isinstance(s, FUNC)}
         if any(not isinstance(s, FUNC) for s in body[:-1]):
             st['pass'] = False          # something else happens in a hop before the target is handed on
-        # dual form: `return D if target is None else D(f=target)`
-        if isinstance(v, ast.IfExp) and isinstance(v.test, ast.Compare) and len(v.test.ops) == 1 \
-                and isinstance(v.test.left, ast.Name) and v.test.left.id == target \
-                and isinstance(v.test.comparators[0], ast.Constant) and v.test.comparators[0].value is None \
-                and isinstance(v.test.ops[0], (ast.Is, ast.IsNot)):
-            a, b = (v.body, v.orelse) if isinstance(v.test.ops[0], ast.Is) else (v.orelse, v.body)
+        # dual form: `return D if target is None else D(f=target)`; told apart by truth value (`D(f=target) if target else D`) an object
+        # with bool(obj) == False is taken for "no target": recorded as dispatchOnNone = false
+        by_none = isinstance(v, ast.IfExp) and isinstance(v.test, ast.Compare) and len(v.test.ops) == 1 \
+            and isinstance(v.test.left, ast.Name) and v.test.left.id == target \
+            and isinstance(v.test.comparators[0], ast.Constant) and v.test.comparators[0].value is None \
+            and isinstance(v.test.ops[0], (ast.Is, ast.IsNot))
+        by_truth = isinstance(v, ast.IfExp) and (
+            (isinstance(v.test, ast.Name) and v.test.id == target) or
+            (isinstance(v.test, ast.UnaryOp) and isinstance(v.test.op, ast.Not) and isinstance(v.test.operand, ast.Name)
+             and v.test.operand.id == target))
+        if by_none or by_truth:
+            if by_none:
+                a, b = (v.body, v.orelse) if isinstance(v.test.ops[0], ast.Is) else (v.orelse, v.body)
+            else:
+                a, b = (v.orelse, v.body) if isinstance(v.test, ast.Name) else (v.body, v.orelse)
+                st['byNone'] = False
             if isinstance(a, ast.Name) and a.id in nested and isinstance(b, ast.Call) and isinstance(b.func, ast.Name) \
                     and b.func.id == a.id:
                 d = nested[a.id]
@@ -400,7 +410,7 @@ class Resolver:
             fac_calls = [n for n in direct_nodes(fbody) if is_enabled_call(n)]
             fac_calls += [n for d in nested_defs([s for s in fbody if isinstance(s, FUNC)]) for n in ast.walk(d) if is_enabled_call(n)]
         r = {'name': name, 'chain': st['chain'], 'pass': st['pass'], 'inner': st['inner'],
-             'reqdoc': bool(st['consts'].get('require_docstring', False)),
+             'reqdoc': bool(st['consts'].get('require_docstring', False)), 'byNone': st['byNone'],
              'level': 'never', 'first': False, 'gE': False, 'gD': False, 'ret': False, 'also': False, 'eager': True}
         if st['inner']:
             # class decorators: the per-member decorator is the factory's first parameter (for_all_methods(decorator))
@@ -429,6 +439,35 @@ class Resolver:
         return r
 
 
+def switch_readers(repo):
+    """every function of the library (tests aside) that calls is_enabled(), and every module besides env_var_logic.py that mentions the
+    variable by name: `<file>:<qualified function>` / `<file>:<module>`"""
+    import os
+    out = []
+    root = os.path.join(repo, 'pedantic')
+    for dirpath, dirs, files in os.walk(root):
+        dirs[:] = sorted(d for d in dirs if d not in ('tests', '__pycache__'))
+        for fn in sorted(files):
+            if not fn.endswith('.py'):
+                continue
+            rel = os.path.relpath(os.path.join(dirpath, fn), repo).replace(os.sep, '/')
+            tree = ast.parse(src(repo, rel))
+
+            def rec(node, qual):
+                for c in ast.iter_child_nodes(node):
+                    q = qual + [c.name] if isinstance(c, FUNC + (ast.ClassDef,)) else qual
+                    if is_enabled_call(c) and rel != ENV_REL:
+                        out.append(f'{rel}:{".".join(qual) or "<module>"}')
+                    if rel != ENV_REL and ((isinstance(c, ast.Constant) and c.value == 'ENABLE_PEDANTIC')
+                                           or (isinstance(c, ast.Name) and c.id == 'ENVIRONMENT_VARIABLE_NAME')
+                                           or (isinstance(c, ast.Attribute) and c.attr == 'ENVIRONMENT_VARIABLE_NAME')
+                                           or (isinstance(c, ast.alias) and c.name == 'ENVIRONMENT_VARIABLE_NAME')):
+                        out.append(f'{rel}:{".".join(qual) or "<module>"}:names-the-variable')
+                    rec(c, q)
+            rec(tree, [])
+    return sorted(set(out))
+
+
 def gen_switch(repo):
     env = EnvTr(ast.parse(src(repo, ENV_REL)))
     if 'is_enabled' not in env.funcs:
@@ -444,7 +483,7 @@ def gen_switch(repo):
                 f'    passThrough := {lean_bool(r["pass"])}, inner := {lean_str(r["inner"])}, requireDocstring := {lean_bool(r["reqdoc"])},\n'
                 f'    readAt := .{r["level"]}, untouchedBefore := {lean_bool(r["first"])}, guardIfEnabled := {lean_bool(r["gE"])}, '
                 f'guardIfDisabled := {lean_bool(r["gD"])}, returnsReceived := {lean_bool(r["ret"])}, wrapperAlsoReads := {lean_bool(r["also"])},\n'
-                f'    membersEager := {lean_bool(r["eager"])} }}')
+                f'    membersEager := {lean_bool(r["eager"])}, dispatchOnNone := {lean_bool(r["byNone"])} }}')
     return HEADER.format(rel=f'{ENV_REL}, {FN_REL}, {CLS_REL}') + f'''namespace PedVerif.Gen.Switch
 
 /-- `ENVIRONMENT_VARIABLE_NAME` -/
@@ -481,11 +520,17 @@ structure Row where
   wrapperAlsoReads : Bool      -- besides the test at decoration level, a nested function calls is_enabled() as well
   membersEager : Bool          -- class decorators: the per-member decorator is applied to every member while the receiver runs,
                                -- never stored to be applied later (on attribute access); function decorators: true
+  dispatchOnNone : Bool        -- a hop that accepts both `@d` and `@d(..)` tells the two uses apart by `<target> is None` (true also when there
+                               -- is no such hop); false: by the truth value of the target
 deriving DecidableEq, Repr
 
 def rows : List Row := [
 {(',' + chr(10)).join(row_txt(r) for r in rows)}
 ]
+
+/-- every function of the library (tests aside) that calls `is_enabled()`, and every place outside env_var_logic.py that names the
+    variable: the per-call wrappers and everything they reach (FunctionCall, the type checks, the generic-instance check) must not be here -/
+def switchReaders : List String := [{', '.join(lean_str(x) for x in switch_readers(repo))}]
 
 end PedVerif.Gen.Switch
 '''
